@@ -22,6 +22,10 @@ pub struct World {
     pub k: u16,
     /// label -> BDD string over the canonical (k = 0) symbolic context of the network.
     pub context: BTreeMap<String, String>,
+    /// the caller restricts the graph to a subset of the admissible colours (BDD string over the
+    /// canonical context, parameter variables only): the graph handed to the library is built with
+    /// `SymbolicAsyncGraph::with_custom_context(network, context, this set)`
+    pub restrict: Option<String>,
 }
 
 /// Instantiated world (built inside the thread that uses it).
@@ -38,7 +42,7 @@ unsafe impl Send for Env {}
 
 impl World {
     pub fn to_json(&self) -> Value {
-        json!({"model": self.model, "k": self.k, "context": self.context})
+        json!({"model": self.model, "k": self.k, "context": self.context, "restrict": self.restrict})
     }
     pub fn from_json(v: &Value) -> Result<World, String> {
         let model = v["model"].as_str().ok_or("world.model")?.to_string();
@@ -49,7 +53,7 @@ impl World {
                 context.insert(l.clone(), s.as_str().ok_or("world.context")?.to_string());
             }
         }
-        Ok(World { model, k, context })
+        Ok(World { model, k, context, restrict: v["restrict"].as_str().map(|s| s.to_string()) })
     }
 
     pub fn build(&self) -> Result<Env, String> {
@@ -58,8 +62,24 @@ impl World {
 
     pub fn build_with_k(&self, k: u16) -> Result<Env, String> {
         let bn = BooleanNetwork::try_from(self.model.as_str())?;
-        let graph = get_extended_symbolic_graph(&bn, k)?;
         let canonical = SymbolicContext::new(&bn)?;
+        let graph = match &self.restrict {
+            None => get_extended_symbolic_graph(&bn, k)?,
+            Some(r) => {
+                // the same construction as get_extended_symbolic_graph, with the caller's unit set
+                let mut extra = HashMap::new();
+                for v in bn.variables() {
+                    extra.insert(v, k);
+                }
+                let context = SymbolicContext::with_extra_state_variables(&bn, &extra)?;
+                let bdd = Bdd::from_string(r);
+                if bdd.num_vars() != canonical.bdd_variable_set().num_vars() {
+                    return Err("colour restriction was made for a different network".to_string());
+                }
+                let unit = context.transfer_from(&bdd, &canonical).ok_or("cannot transfer colour restriction")?;
+                SymbolicAsyncGraph::with_custom_context(&bn, context, unit)?
+            }
+        };
         let mut ctx = HashMap::new();
         for (label, s) in &self.context {
             let bdd = Bdd::from_string(s);
@@ -70,9 +90,10 @@ impl World {
                 .symbolic_context()
                 .transfer_from(&bdd, &canonical)
                 .ok_or(format!("cannot transfer context set {label}"))?;
+            // context sets stay inside the valid universe of the graph actually used
             ctx.insert(
                 label.clone(),
-                GraphColoredVertices::new(moved, graph.symbolic_context()),
+                GraphColoredVertices::new(moved, graph.symbolic_context()).intersect(graph.unit_colored_vertices()),
             );
         }
         let var_names = bn.variables().map(|v| bn.get_variable_name(v).clone()).collect();
@@ -287,6 +308,8 @@ pub struct WorldCfg {
     pub min_k: u16,
     pub max_extra_k: u16,
     pub max_ctx: usize,
+    /// may the world carry a caller-side colour restriction of the graph
+    pub allow_restrict: bool,
 }
 
 /// Generate a world; deterministic in `rng`'s seed. Returns the world and the number of
@@ -305,6 +328,7 @@ pub fn gen_world(rng: &Rng, cfg: &WorldCfg) -> (World, usize) {
             model: "a -> b\nb -| a\n$a: !b\n$b: a\n".to_string(),
             k: cfg.min_k,
             context: BTreeMap::new(),
+            restrict: None,
         },
         64,
     )
@@ -325,5 +349,23 @@ pub fn world_on_model(r: &mut Rng, cfg: &WorldCfg, model: String) -> Option<Worl
     for l in labels.into_iter().take(nctx) {
         context.insert(l.to_string(), gen_context_bdd(r, &graph).to_string());
     }
-    Some(World { model, k, context })
+    // every fifth world with parameters: the caller restricts the admissible colours further
+    let mut restrict = None;
+    let params = graph.symbolic_context().parameter_variables().clone();
+    if !params.is_empty() && cfg.allow_restrict && r.chance(1, 5) {
+        let vs = graph.symbolic_context().bdd_variable_set();
+        let mut cube = vs.mk_true();
+        for _ in 0..r.range(1, 2) {
+            cube = cube.and(&vs.mk_literal(*r.pick(&params), r.chance(1, 2)));
+        }
+        let colours = cube.and(graph.unit_colors().as_bdd());
+        if !colours.is_false() && colours != *graph.unit_colors().as_bdd() {
+            restrict = Some(colours.to_string());
+        }
+    }
+    let w = World { model, k, context, restrict };
+    if w.restrict.is_some() && w.build().is_err() {
+        return Some(World { restrict: None, ..w });
+    }
+    Some(w)
 }
